@@ -12,7 +12,7 @@ func init() {
 	propFuncs["C15"] = propC15
 	propInfos["C15"] = &PropInfo{
 		Level:   "other",
-		Explain: "Structural necessary conditions decided statically (DESIGN.md §5 C15): engine A — LOESS (and the closure it returns), PolynomialRegression and LinearLeastSquares write none of xs, ys, weights; pairSlice.Swap exchanges both slices; monomial basis — every function stored at terms[e] fills termOut[i] with xs[i]^e (degree extracted from the stored element: constant 1, copy, a power, math.Pow with a symbolic exponent, and compared with the index it is stored at); the evaluator F as a pair of recurrences y += xp*c, xp *= x from y=coeffs[0], xp=x over coeffs[1:]; Coefficients is the slice returned by LinearLeastSquares(xs, ys, weights, terms...); the normal equations as a call sequence with data flow: XT laid out row i = xTVals[i*len(xs):(i+1)*len(xs)] filled by term i, X = XT.T(), XTW = XT or a copy whose every row is multiplied element-wise by the weight vector, lhs.Mul(XTW, X), rhs.MulVec(XTW, y) with y wrapping ys, B.SolveVec(lhs, rhs), result the backing slice of B; LOESS: q = min(ceil(span*n), n), window xs[n:n+q], ys[n:n+q] (same n), search predicate xs[i]+xs[i+q] >= 2x over len(xs)-q, d = max(x-closest[0], closest[q-1]-x), tricube weights, local PolynomialRegression evaluated at x; sorting only on copies.",
+		Explain: "Structural necessary conditions decided statically (DESIGN.md §5 C15): engine A — LOESS (and the closure it returns), PolynomialRegression and LinearLeastSquares write none of xs, ys, weights; pairSlice.Swap exchanges both slices; monomial basis — every function stored at terms[e] fills termOut[i] with xs[i]^e (degree extracted from the stored element: constant 1, copy, a power, math.Pow with a symbolic exponent, and compared with the index it is stored at); the evaluator F as a pair of recurrences y += xp*c, xp *= x from y=coeffs[0], xp=x over coeffs[1:]; Coefficients is the slice returned by LinearLeastSquares(xs, ys, weights, terms...); the normal equations as a call sequence with data flow: XT laid out row i = xTVals[i*len(xs):(i+1)*len(xs)] filled by term i, X = XT.T(), XTW = XT or a copy whose every row is multiplied element-wise by the weight vector, lhs.Mul(XTW, X), rhs.MulVec(XTW, y) with y wrapping ys, B.SolveVec(lhs, rhs), result the backing slice of B; LOESS: q = min(ceil(span*n), n), window xs[n:n+q], ys[n:n+q] (same n), search predicate xs[i]+xs[i+q] >= 2x over len(xs)-q, d = max(x-closest[0], closest[q-1]-x), tricube weights, local PolynomialRegression evaluated at x; sorting only on copies. Added after the mutation sweep: every terms[k] is set — constants exactly when k <= degree, one loop over the remaining degrees storing in every iteration.",
 		Assume:  []string{"A3 gonum mat conventions", "A4 reals", "A2"},
 		Undec:   []string{"that the solved coefficients minimise the residual (linear algebra inside gonum)", "conditioning", "order independence of LOESS (follows from sorting, not proved)"},
 	}
